@@ -63,7 +63,7 @@ Theorem C10_sort_locs : forall ls,
 Proof. exact sort_locs_spec. Qed.
 Print Assumptions C10_sort_locs.
 
-(* P1 wrapped_loc: breaking the location text after any commas and concatenating the pieces (what the reader does with
+(* P1 wrapped_loc: breaking the location text at any positions (pieces of any sizes) and concatenating the pieces (what the reader does with
    continuation lines) gives the text back *)
 Theorem C10_wrapped_loc : forall s w, concat (wrap_at s w) = s.
 Proof. exact wrap_concat. Qed.
@@ -79,7 +79,7 @@ Print Assumptions C10_read_render_box_partial.
 
 (* P2 read_render, feature-table part, general (unbounded): from any reader state without a pending feature, the key line and
    the location lines that render_feat writes (render_feat f = loc_lines (akey f) (wrap_at (print (aloc f)) (awrap f)) ++
-   qualifier lines), wrapped at any commas, followed by the flush that the next key line triggers, append exactly the feature
+   qualifier lines), wrapped at any break points, followed by the flush that the next key line triggers, append exactly the feature
    with that key and the meaning of the location ordered along its strand.  Qualifier lines, header and ORIGIN remain
    box/correspondence-only. *)
 Theorem C10_feature_table_locs_partial : forall excl s key e w,
@@ -101,30 +101,36 @@ Proof. exact read_render. Qed.
 Print Assumptions C10_read_render.
 
 (* what the view is, clause by clause: one record per abstract record in order; id = first word of ACCESSION ('' without one);
-   residues upper-cased; one feature per feature-table entry with key as type, the meaning of its location ordered along the
-   strand, the record id as seqid and its qualifiers (flags collected under 'misc') *)
+   header fields as metadata (REFERENCE dropped); residues upper-cased; one feature per feature-table entry with key as type, the
+   meaning of its location ordered along the strand, the record id as seqid and its qualifiers as the dict the reader builds
+   (C10_quals_dict); a record without ORIGIN has neither residues nor a feature list *)
 Theorem C10_view_spec : forall excl rs,
   length (view excl rs) = length rs
   /\ Forall2 (fun r v =>
        rid v = match view_id r with Some i => i | None => [] end
-       /\ (mem k_seq excl = false -> rseq v = upper (aseq r))
-       /\ (mem k_fts excl = false ->
+       /\ rhdr v = adel k_reference (view_hdr (ahdr r))
+       /\ (mem k_seq excl = false -> aorigin r = true -> rseq v = upper (aseq r))
+       /\ (aorigin r = false -> rseq v = [] /\ rfts v = None)
+       /\ (mem k_fts excl = false -> aorigin r = true ->
            exists fl, rfts v = Some fl /\
              Forall2 (fun f g => ftype g = akey f /\ flocs g = sort_locs (sem (aloc f)) /\ fseqid g = view_id r
-                        /\ (mem k_translation excl = false -> fquals g = view_quals (aquals f) (flag_names (aquals f)) false)) (afts r) fl))
+                        /\ (mem k_translation excl = false -> fquals g = quals_dict (aquals f))) (afts r) fl))
      rs (view excl rs).
 Proof. exact view_spec. Qed.
 Print Assumptions C10_view_spec.
 
 (* the exclude option removes exactly what it names: relative to reading without exclude, 'seq' empties the residues, 'fts'
-   drops the feature list, 'translation' deletes that qualifier from every feature, nothing else changes *)
+   drops the feature list, 'translation' deletes that qualifier from every feature, nothing else changes (header metadata and id
+   are never touched); any other name in the tuple has no effect *)
 Theorem C10_exclude_exact : forall excl r,
   view_rec excl r =
   mkrec (rid (view_rec [] r))
         (if mem k_seq excl then [] else rseq (view_rec [] r))
         (if mem k_fts excl then None
-         else option_map (map (fun f => if mem k_translation excl then del_translation f else f)) (rfts (view_rec [] r))).
-Proof. exact exclude_exact. Qed.
+         else option_map (map (fun f => if mem k_translation excl then del_translation f else f)) (rfts (view_rec [] r)))
+        (rhdr (view_rec [] r))
+  /\ (mem k_seq excl = false -> mem k_fts excl = false -> mem k_translation excl = false -> view_rec excl r = view_rec [] r).
+Proof. exact (fun excl r => conj (exclude_exact excl r) (exclude_unknown excl r)). Qed.
 Print Assumptions C10_exclude_exact.
 
 (* read_fts agrees with read/iter_: its result is the concatenation of the feature lists of the records *)
@@ -156,5 +162,6 @@ Example C10_witness_exclude_fts :
   /\ map rseq (view [k_fts] ex_file) = map rseq (view [] ex_file)
   /\ map rfts (view [k_fts] ex_file) = [None; None]
   /\ read_fts_genbank [k_fts] (render_gb ex_file) = ROk []
-  /\ iter_genbank [k_fts; k_seq] (render_gb ex_file) = ROk [mkrec (bs "AB000001"%bs) [] None; mkrec [] [] None].
+  /\ match iter_genbank [k_fts; k_seq] (render_gb ex_file) with ROk l => map (fun r => (rid r, rseq r, rfts r)) l | RErr _ => [] end
+     = [(bs "AB000001"%bs, [], None); ([], [], None)].
 Proof. exact ex_exclude_fts. Qed.
